@@ -234,6 +234,18 @@ class GenuineSGX:
                 raise SW(0x6B00)
             self.message = (b"POWHSM:5.4::" + b"sgx" + ud + self.keys_hash() + self.best_block +
                             self.last_tx + bytes(8))
+            if self.rng.random() < 1 / 3:
+                # one device in three holds a state whose message digest (what the quote
+                # commits to) begins or ends with a zero byte
+                import hashlib
+                for _ in range(4000):
+                    self.best_block = self.rng.randbytes(32)
+                    self.message = (b"POWHSM:5.4::" + b"sgx" + ud + self.keys_hash() +
+                                    self.best_block + self.last_tx + bytes(8))
+                    dg = hashlib.sha256(self.message).digest()
+                    if dg[0] == 0 or dg[-1] == 0:
+                        self.zero_edge_digest = True
+                        break
             self.material = g2.build(self.rng, depth=self.depth, custom_data=self.message,
                                      auth_len=self.auth_len)
             self.envelope = self._alt("envelope", g2.envelope(self.material, self.rng,
